@@ -24,6 +24,20 @@ def conclusive(obs):
     return obs not in ("BUDGET", "FUEL", "UNSPEC") and not obs.startswith("BADINPUT")
 
 
+def same_obs(impl, model):
+    """Equal observables; two errors with the same trace agree even when their coarse class differs
+    (the class is read off the interpreter's error text, which a harmless rewording may change),
+    except that the injected user error of failk must be matched exactly. Returns (agree, class_differs)."""
+    if impl == model:
+        return True, False
+    if impl.startswith("E:") and model.startswith("E:"):
+        ci, _, ti = impl.partition("|")
+        cm, _, tm = model.partition("|")
+        if ti == tm and "user" not in (ci[2:], cm[2:]):
+            return True, True
+    return False, False
+
+
 def run(pid, cmd, argv, trusted, known_classifiers):
     """known_classifiers: finding id -> predicate(shrunk-record) (narrow classifier)."""
     c = Check(pid, argv)
@@ -40,6 +54,7 @@ def run(pid, cmd, argv, trusted, known_classifiers):
     cases = c.harness(cmd) if rc == 0 else None
     fails, n, agree, inconcl, twins, unspec, panics = [], 0, 0, 0, 0, 0, []
     twin_ok = {}
+    class_diff = 0
     if cases:
         mout = c.model(cases, extract_pid="RefSem")
         if mout:
@@ -54,7 +69,7 @@ def run(pid, cmd, argv, trusted, known_classifiers):
                     if inp.startswith("twin="):
                         twins += 1
                         kind, _, orig = inp.split(" ", 1)[0][5:].partition(":")
-                        twin_ok[(int(orig), kind)] = conclusive(impl) and impl == model
+                        twin_ok[(int(orig), kind)] = conclusive(impl) and same_obs(impl, model)[0]
                         continue
                     n += 1
                     if impl.startswith("PANIC"):
@@ -68,8 +83,10 @@ def run(pid, cmd, argv, trusted, known_classifiers):
                     if not (conclusive(impl) and conclusive(model)):
                         inconcl += 1
                         continue
-                    if impl == model:
+                    ok, cls = same_obs(impl, model)
+                    if ok:
                         agree += 1
+                        class_diff += 1 if cls else 0
                     else:
                         fails.append((len(inp), cid, src, impl, model, inp))
     c.coverage["compared"] = n
@@ -79,6 +96,7 @@ def run(pid, cmd, argv, trusted, known_classifiers):
     c.coverage["twin_cases"] = twins
     c.coverage["traces_validated_against_impl"] = agree
     c.coverage["disagreements"] = len(fails)
+    c.coverage["error_class_differs_same_trace"] = class_diff
     for p in panics[:3]:
         p["kind"] = "the interpreter panicked on a program of the core language"
         p["replay"] = "bin/check %s --replay <this file> (evaluates \"source\" in a fresh interpreter)" % pid
@@ -131,7 +149,7 @@ def run(pid, cmd, argv, trusted, known_classifiers):
             if not r.get("reproduced_in_fresh_interpreter", True) and r.get("implementation") == r.get("model"):
                 not_repro += 1
                 continue
-            if r.get("implementation") == r.get("model"):
+            if same_obs(r.get("implementation", ""), r.get("model", ""))[0]:
                 not_repro += 1
                 continue
             if r["source"] in seen_src:
